@@ -551,3 +551,24 @@ Proof.
   cbv zeta. split; [|split; [vm_compute; discriminate|vm_compute; reflexivity]].
   apply TV.Proofs.FuelDistProofs.dist_okb_sound. vm_compute. reflexivity.
 Qed.
+
+(* `fr_loop` OUTSIDE the class of C03_fr_loop_fuel_suffices (finite space): with an infinite space to fill and a track `fr(0)` the
+   hypothetical fr size is inf in every round, `0 * inf` is NaN, both disjuncts of the validity test compare with NaN and are false:
+   no round is valid, the `loop` of find_size_of_fr is never left with ANY fuel (the model returns the flag `false` after
+   length + 2 rounds).  Status on the implementation: notes/FUEL.md ("fr_loop off-class"). *)
+Definition C03_ex_fr0_track : list (TV.Model.GridTracks.track TV.Num.QNum.XQ) :=
+  let z := TV.Num.QNum.Fin 0%Q in
+  [ TV.Model.GridTracks.mk_track TV.Model.GridTracks.KTrack false TV.Model.GridTracks.SAuto (TV.Model.GridTracks.SFr z) z z z z z z false ].
+Theorem C03_fr_loop_infinite_space_refuted :
+  exists (tracks : list (TV.Model.GridTracks.track TV.Num.QNum.XQ)) (sp : TV.Num.QNum.XQ),
+    Forall TV.Proofs.GridTracksProofs.track_ok2 tracks /\
+    forall fuel, snd (TV.Model.GridTracks.fr_loop fuel tracks sp TV.Num.Num.infinity) = false.
+Proof.
+  exists C03_ex_fr0_track, TV.Num.QNum.PInf. split.
+  - repeat constructor; vm_compute; try exact I; discriminate.
+  - intro fuel. change (@TV.Num.Num.infinity TV.Num.QNum.XQ _) with TV.Num.QNum.PInf.
+    induction fuel as [|f IH]; [reflexivity|]. cbn [TV.Model.GridTracks.fr_loop].
+    change (TV.Model.GridTracks.fr_next C03_ex_fr0_track TV.Num.QNum.PInf TV.Num.QNum.PInf) with TV.Num.QNum.PInf.
+    change (TV.Model.GridTracks.fr_valid C03_ex_fr0_track TV.Num.QNum.PInf TV.Num.QNum.PInf) with false. exact IH.
+Qed.
+Print Assumptions C03_fr_loop_infinite_space_refuted.
